@@ -4,6 +4,9 @@ import json, os, sys
 ROOT = os.path.dirname(os.path.dirname(os.path.abspath(__file__)))
 
 CHECKS = {
+ "C03": ("fault_enumeration", "runtime monitoring + fault enumeration over recorded traces: os.File-level journal of real synced workloads, crash images at journal indexes under three loss models, recovery obligations checked on each image in a fresh process",
+         "Every crash image is a state the real process + POSIX file system could have left at some journal index of a recorded execution (3 traces quick / 24 thorough; quick samples ~ 500 points per trace around fsyncs, creations, removals, acks plus PRNG points, thorough takes every journal index) under M0 process kill, M1 nothing un-fsynced, M2 per-file prefix with torn last write; on each the store must reopen, hold every acknowledged tx byte-identical, expose a dense chained frontier made only of txs it had issued, prove consistency from an acknowledged state, have an index that agrees with the log, and accept a new commit.",
+         "Crash points and workloads are those of the recorded traces; arbitrary subsets of un-fsynced writes are not generated (the property quantifies over per-file prefixes); directory entries are durable at the following directory fsync; a step that hits a time limit is re-run alone with limits x10 before it can count.", "DESIGN.md 2/C03"),
  "C02": ("exploration", "runtime monitoring: ledger of acknowledged commits re-read (live, cold copy, after reopen) + online monitor on issued/committed hooks + Merkle reference for the chain, under concurrent committers with hook-point schedule perturbation",
          "Held on the executions produced: 8 (quick) / 64 (thorough) store configurations, each with 3-4 rounds of 4-12 concurrent committers (12 operation kinds incl. refused, conflicting and cancelled txs), maintenance (flush, compaction, sync, truncation), external-commit-allowance backlogs with discarding, and close/reopen cycles; every acknowledged tx is re-read and compared, the whole committed range is re-chained against an independent RFC 6962 root, every sampled state is checked retrospectively.",
          "Interleavings are those the Go scheduler and the verifhook points produce; SHA-256; a process death inside immudb code is reported as a violation (crash/...); a store that stops making progress is inconclusive, not a violation.", "DESIGN.md 2/C02"),
